@@ -7,6 +7,27 @@ class Boom(Exception):
     pass
 
 
+class BoomBase(BaseException):
+    """a failure that is not an Exception (like SystemExit, asyncio.CancelledError, pytest's Failed)"""
+
+
+def clog_task(i, tag, exc, stuck_s):
+    """the failing task raises `exc` after a moment; every other task of the call stays busy for stuck_s seconds"""
+    if exc is None:
+        time.sleep(stuck_s)
+        return (tag, i)
+    time.sleep(0.05)
+    if exc == "Boom":
+        raise Boom(tag, i)
+    if exc == "BoomBase":
+        raise BoomBase(tag, i)
+    if exc == "SystemExit":
+        raise SystemExit(tag, i)
+    if exc == "KeyboardInterrupt":
+        raise KeyboardInterrupt(tag, i)
+    raise AssertionError(exc)
+
+
 def task(i, tag, fail, dur=0.0, logfile=None):
     if dur:
         time.sleep(dur)
